@@ -113,3 +113,87 @@ def stream(ctx, ncases, side):
     ctx.sample(dict(stream="lattice-exact-" + side, case=lines[0], model=model[0]))
     ctx.stream("lattice-exact-" + side, cases=len(lines), dims=kinds, disagreements=bad,
                metrics=["sqeuclidean", "euclidean", "manhattan", "chebyshev", "hamming"] + (["braycurtis"] if side == "dense" else []))
+
+
+FLOAT32_MAX = float(np.finfo(np.float32).max)
+
+
+def _angular_expected(kind, cls, r, q):
+    """float64 value of the wrapper on the model's exact (class, r, q); None = compare the class only"""
+    if cls == 0:
+        return 0.0
+    if cls == 1:
+        return 1.0
+    if cls == 2:
+        return FLOAT32_MAX
+    ratio = r / math.sqrt(q)
+    if kind == "cosine":
+        return 1.0 - ratio
+    if kind == "alternative_cosine":
+        return math.log2(1.0 / ratio)
+    if kind == "true_angular":
+        return 1.0 - math.acos(min(1.0, ratio)) / math.pi
+    if kind == "dot":
+        return 1.0 - r
+    if kind == "alternative_dot":
+        return -math.log2(r)
+    raise KeyError(kind)
+
+
+def angular_stream(ctx, ncases, which):
+    """cosine / alternative_cosine / true_angular / dot / alternative_dot (dense and CSR twins) against model/Lattice.v:
+    the branch taken (zero / one / sentinel / ratio) must be the model's EXACTLY, and on the ratio branch the value must be
+    the wrapper applied to the model's exact (result, norm_x * norm_y).
+    which: 'metrics' (C07: cosine, dot, true_angular), 'surrogates' (C09: alternative_*), 'sparse' (C08: sparse twins)"""
+    from pynndescent import distances as pd, sparse as sp
+    rng = ctx.rng
+    lines, vecs = [], []
+    for c in range(ncases):
+        dim = rng.choice([1, 2, 3, 5, 8, 17, 40])
+        x, y = _vectors(rng, dim)
+        if rng.random() < 0.15:
+            y = [2 * v for v in x]           # parallel: ratio exactly 1
+        if rng.random() < 0.1 and dim >= 2:
+            x = [1, 2] + [0] * (dim - 2); y = [-2, 1] + [0] * (dim - 2)    # orthogonal: ratio exactly 0
+        lines.append("angular %d %s %s" % (dim, fmt(x), fmt(y)))
+        vecs.append((x, y))
+    model = common.run_driver(lines)
+    if which == "metrics":
+        kernels = [("cosine", 0, "cosine", lambda xs, ys: pd.named_distances["cosine"](xs, ys)),
+                   ("true_angular", 1, "true_angular", lambda xs, ys: pd.true_angular(xs, ys)),
+                   ("dot", 2, "dot", lambda xs, ys: pd.dot(xs, ys))]
+    elif which == "surrogates":
+        kernels = [("alternative_cosine", 1, "alternative_cosine", lambda xs, ys: pd.alternative_cosine(xs, ys)),
+                   ("alternative_dot", 3, "alternative_dot", lambda xs, ys: pd.alternative_dot(xs, ys))]
+    else:
+        enc = lambda v: (np.nonzero(v)[0].astype(np.int32), v[np.nonzero(v)[0]])
+        kernels = [("sparse_cosine", 0, "cosine", lambda xs, ys: sp.sparse_cosine(*enc(xs), *enc(ys))),
+                   ("sparse_alternative_cosine", 1, "alternative_cosine", lambda xs, ys: sp.sparse_alternative_cosine(*enc(xs), *enc(ys))),
+                   ("sparse_alternative_dot", 3, "alternative_dot", lambda xs, ys: sp.sparse_alternative_dot(*enc(xs), *enc(ys)))]
+    bad, classes = {}, {}
+    for ln, (x, y), mo in zip(lines, vecs, model):
+        parts = [[int(t) for t in p.split()] for p in mo.split("|")]
+        xs = np.array(x, dtype=np.float32)
+        ys = np.array(y, dtype=np.float32)
+        ctx.nontrivial.add(hash(ln))
+        for name, col, kind, fn in kernels:
+            cls, r, q = parts[col]
+            classes[(name, cls)] = classes.get((name, cls), 0) + 1
+            want = _angular_expected(kind, cls, r, q)
+            got = float(fn(xs, ys))
+            if cls in (0, 1, 2):
+                ok = got == want or (cls == 2 and got == float(np.float32(FLOAT32_MAX)))
+            else:
+                tol = (1e-3 if kind == "true_angular" else 3e-6) * max(1.0, abs(want))
+                ok = abs(got - want) <= tol and not (got >= 0.99 * FLOAT32_MAX)
+            if not ok:
+                bad[name] = bad.get(name, 0) + 1
+                if bad[name] <= 1:
+                    ctx.violation("angular-%s:%s" % (which, name),
+                                  "%s on integer-valued float32 vectors returns %r; model/Lattice.v: branch %s with (result, norm_x*norm_y) = (%d, %d), value %r"
+                                  % (name, got, ["zero", "one", "sentinel", "ratio"][cls], r, q, want),
+                                  dict(kernel=name, x=x, y=y, implementation=got, model_class=cls, r=r, q=q, expected=want, case_line=ln), True)
+    ctx.count(len(lines) * len(kernels))
+    ctx.sample(dict(stream="angular-exact-" + which, case=lines[0], model=model[0]))
+    ctx.stream("angular-exact-" + which, cases=len(lines), kernels=[k[0] for k in kernels], disagreements=bad,
+               branches={"%s:%s" % (n, ["zero", "one", "sentinel", "ratio"][c]): v for (n, c), v in sorted(classes.items())})
